@@ -218,7 +218,26 @@ type worker struct {
 	nPL       int
 	nHist     int
 	nReleases int
+	nMemo     int
 	panics    map[string]int
+	sbCache   map[sbKey][2]string
+}
+
+// sbKey holds every field that enters the sign-bytes of a vote / proposal (the cache below only saves
+// re-marshalling identical objects; it is keyed by what the signer handed back, not by the request).
+type sbKey struct {
+	vote       bool
+	h          uint64
+	r, typ     int
+	bh         cmn.Hash
+	pt         int
+	ph         string
+	polr       int
+	polbh      cmn.Hash
+	polpt      int
+	polph      string
+	ts         int64
+	tsLocation string
 }
 
 func h64(b []byte) uint64 {
@@ -229,8 +248,8 @@ func h64(b []byte) uint64 {
 
 func (w *worker) snapshot(life int) *release {
 	var hrs [3]int64
-	var bytes, payload []byte
 	var sig crypto.Signature
+	var k sbKey
 	if w.curVote != nil {
 		v := w.curVote
 		sig = v.Signature
@@ -239,20 +258,32 @@ func (w *worker) snapshot(life int) *release {
 			step = stepPrecommit
 		}
 		hrs = [3]int64{int64(v.Height), int64(v.Round), int64(step)}
-		bytes = v.SignBytes(chainID)
-		c := *v
-		c.Timestamp = time.Time{}
-		payload = c.SignBytes(chainID)
+		k = sbKey{vote: true, h: v.Height, r: v.Round, typ: int(v.Type), bh: v.BlockID.Hash, pt: v.BlockID.PartsHeader.Total,
+			ph: string(v.BlockID.PartsHeader.Hash), ts: v.Timestamp.UnixNano(), tsLocation: v.Timestamp.Location().String()}
 	} else {
 		p := w.curProp
 		sig = p.Signature
 		hrs = [3]int64{int64(p.Height), int64(p.Round), stepPropose}
-		bytes = p.SignBytes(chainID)
-		c := *p
-		c.Timestamp = time.Time{}
-		payload = c.SignBytes(chainID)
+		k = sbKey{h: p.Height, r: p.Round, pt: p.BlockPartsHeader.Total, ph: string(p.BlockPartsHeader.Hash), polr: p.POLRound,
+			polbh: p.POLBlockID.Hash, polpt: p.POLBlockID.PartsHeader.Total, polph: string(p.POLBlockID.PartsHeader.Hash),
+			ts: p.Timestamp.UnixNano(), tsLocation: p.Timestamp.Location().String()}
 	}
-	return &release{life: life, idx: w.curIdx, hrs: hrs, bytes: string(bytes), payload: string(payload), sig: string(sig.Bytes()), sigObj: sig}
+	sb, ok := w.sbCache[k]
+	if !ok {
+		if w.curVote != nil {
+			c := *w.curVote
+			sb[0] = string(c.SignBytes(chainID))
+			c.Timestamp = time.Time{}
+			sb[1] = string(c.SignBytes(chainID))
+		} else {
+			c := *w.curProp
+			sb[0] = string(c.SignBytes(chainID))
+			c.Timestamp = time.Time{}
+			sb[1] = string(c.SignBytes(chainID))
+		}
+		w.sbCache[k] = sb
+	}
+	return &release{life: life, idx: w.curIdx, hrs: hrs, bytes: sb[0], payload: sb[1], sig: string(sig.Bytes()), sigObj: sig}
 }
 
 func (w *worker) sigVisible() bool {
@@ -372,7 +403,93 @@ type violation struct {
 }
 
 type histResult struct {
-	viol []violation
+	viol    []violation
+	foreign bool // a second lifetime looked at a path other than the key file that it had not created itself
+}
+
+// lifeRun is what the second process lifetime did: reload, then the remaining requests.
+type lifeRun struct {
+	fail    string
+	outs    []outcome
+	foreign bool
+}
+
+type memoKey struct {
+	content string // key file content ("\x00absent" if the file does not exist)
+	resume  int
+}
+
+func sameRun(a, b *lifeRun) bool {
+	if a.fail != b.fail || len(a.outs) != len(b.outs) {
+		return false
+	}
+	for i := range a.outs {
+		x, y := a.outs[i], b.outs[i]
+		if x.class != y.class || (x.released == nil) != (y.released == nil) {
+			return false
+		}
+		if x.released != nil && (x.released.bytes != y.released.bytes || x.released.sig != y.released.sig) {
+			return false
+		}
+	}
+	return true
+}
+
+// recoverAndResume mounts the crash state st, runs the real LoadFilePV and issues requests resume.. to the
+// reloaded signer. What the second lifetime does is a function of the bytes it reads and of the requests; it
+// reads only the key file (checked on every execution: any look at another pre-existing path sets foreign
+// and the caller repeats the history without memoisation), so within one history the run is memoised by
+// (key file content, resume) - e.g. all crash points before the rename share one execution. Every 64th
+// hit is executed anyway and compared.
+func (w *worker) recoverAndResume(cfg *config, st *vfs.FS, hist []int, resume int, memo map[memoKey]*lifeRun) *lifeRun {
+	var key memoKey
+	if memo != nil {
+		c, ok := st.Content(w.path)
+		key = memoKey{string(c), resume}
+		if !ok {
+			key.content = "\x00absent"
+		}
+		if run, hit := memo[key]; hit {
+			w.nMemo++
+			if w.nMemo%64 != 0 {
+				return run
+			}
+			again := w.recoverAndResume(cfg, st, hist, resume, nil)
+			if !sameRun(run, again) {
+				vk.Fatalf("memoisation self-check failed: two crash states with the same key file content and the same remaining requests behaved differently (history %v, resume %d)", hist, resume)
+			}
+			return run
+		}
+	}
+	st.Annot = w.annot
+	vfs.Mount(w.mount, st)
+	run := &lifeRun{}
+	pv2, fail := w.load()
+	if fail != "" {
+		run.fail = fail
+	} else {
+		w.noteState(pv2, st)
+		for j := resume; j < len(hist); j++ {
+			run.outs = append(run.outs, w.exec(pv2, w.alpha[hist[j]], j, 1))
+			w.noteState(pv2, st)
+		}
+	}
+	// read-set check
+	created := map[string]bool{}
+	for _, o := range st.Log() {
+		if o.Kind == vfs.OpOpen && o.Created {
+			created[o.Path] = true
+		}
+		for _, p := range []string{o.Path, o.Path2} {
+			if p != "" && p != w.path && !created[p] {
+				run.foreign = true
+			}
+		}
+	}
+	if memo != nil {
+		memo[key] = run
+	}
+	return run
 }
 
 type span struct{ start, end int }
@@ -388,7 +505,20 @@ func (w *worker) verify(rel *release) bool {
 }
 
 func (w *worker) runHistory(cfg *config, hist []int, initFile []byte) histResult {
+	res := w.runHistory1(cfg, hist, initFile, true)
+	if res.foreign {
+		// the memoisation argument does not hold for this history: run every scenario for real
+		res = w.runHistory1(cfg, hist, initFile, false)
+	}
+	return res
+}
+
+func (w *worker) runHistory1(cfg *config, hist []int, initFile []byte, useMemo bool) histResult {
 	var res histResult
+	var memo map[memoKey]*lifeRun
+	if useMemo {
+		memo = map[memoKey]*lifeRun{}
+	}
 	names := make([]string, len(hist))
 	for i, o := range hist {
 		names[i] = w.alpha[o].String()
@@ -521,21 +651,19 @@ func (w *worker) runHistory(cfg *config, hist []int, initFile []byte) histResult
 			rels = append(rels, rel0[:relUpTo[sc.resume]]...)
 		}
 		st := fs.Materialize(sc.cp)
-		st.Annot = w.annot
-		vfs.Mount(w.mount, st)
-		pv2, fail := w.load()
-		if fail != "" {
+		run := w.recoverAndResume(cfg, st, hist, sc.resume, memo)
+		if run.foreign {
+			res.foreign = true
+		}
+		if run.fail != "" {
 			k := "reload-fails:process-crash"
 			if sc.cp.PowerLoss() {
 				k = "reload-fails:power-loss"
 			}
-			report(finding{k, "LoadFilePV fails on the bytes a crash leaves behind (the validator cannot restart): " + fail}, desc, &sc.cp, fslog, "")
+			report(finding{k, "LoadFilePV fails on the bytes a crash leaves behind (the validator cannot restart): " + run.fail}, desc, &sc.cp, fslog, "")
 			continue
 		}
-		w.noteState(pv2, st)
-		for j := sc.resume; j < n; j++ {
-			o := w.exec(pv2, w.alpha[hist[j]], j, 1)
-			w.noteState(pv2, st)
+		for _, o := range run.outs {
 			r := o.released
 			if r == nil {
 				continue
@@ -791,6 +919,7 @@ func main() {
 	r.Set("power_loss_scenarios", total.nPL)
 	r.Set("requests_executed", total.nReq)
 	r.Set("reloads", total.nLoad)
+	r.Set("recoveries_memoised", total.nMemo)
 	r.Set("releases_checked", total.nReleases)
 	r.Set("outcomes", total.outcomes)
 	if len(total.panics) > 0 {
@@ -821,7 +950,7 @@ func main() {
 
 func newWorker(id int, alpha []request, pub crypto.PubKey) *worker {
 	w := &worker{id: id, alpha: alpha, pub: pub, addr: pub.Address(), verified: map[string]bool{},
-		outcomes: map[string]int{}, states: map[[4]uint64]struct{}{}, panics: map[string]int{}}
+		outcomes: map[string]int{}, states: map[[4]uint64]struct{}{}, panics: map[string]int{}, sbCache: map[sbKey][2]string{}}
 	if id >= 0 {
 		w.mount = fmt.Sprintf("c04-w%d", id)
 		w.dir = vfs.Root + w.mount
@@ -846,4 +975,5 @@ func (w *worker) merge(o *worker) {
 	w.nPL += o.nPL
 	w.nHist += o.nHist
 	w.nReleases += o.nReleases
+	w.nMemo += o.nMemo
 }
